@@ -70,6 +70,7 @@ type Runner struct {
 	acts   sync.WaitGroup
 	quit   chan struct{}
 	t      *testing.T
+	yieldClient *Client
 }
 
 const Bucket = "leaders"
@@ -221,6 +222,7 @@ func newRunner(t *testing.T, spec *Spec) *Runner {
 		r.St.AddBreak(b)
 	}
 	r.St.OnChange = r.onStoreChange
+	r.yieldClient = r.St.Client("*")
 	for k := range spec.Insts {
 		is := &spec.Insts[k]
 		i := &inst{r: r, spec: is}
@@ -298,6 +300,12 @@ func (r *Runner) build(i *inst) error {
 			case <-ctx.Done():
 				rec.cancelSeen.Store(true)
 				r.add(Event{Kind: "cb.promote.ctxdone", Inst: is.Name, Token: token, Ctx: rec.id})
+				if is.PromoteLinger > 0 {
+					select {
+					case <-time.After(is.PromoteLinger):
+					case <-r.quit:
+					}
+				}
 			case <-r.quit:
 			}
 		}
@@ -644,7 +652,13 @@ func (r *Runner) teardown() {
 		r.St.SetPartition(i.spec.Name, false)
 	}
 	wg.Wait()
-	time.Sleep(r.St.hang + 7*time.Second)
+	var linger time.Duration
+	for _, i := range r.order {
+		if i.spec.PromoteLinger > linger {
+			linger = i.spec.PromoteLinger // user callbacks still winding down are not library leaks
+		}
+	}
+	time.Sleep(r.St.hang + 7*time.Second + linger)
 	synctest.Wait()
 	r.sample("final")
 	lib, rep := Census()
@@ -718,7 +732,13 @@ var curRunner atomic.Pointer[Runner]
 // YieldHook is installed as leader.VerifYield by the sim engine.
 func YieldHook(site string) {
 	r := curRunner.Load()
-	if r == nil || r.Spec.YieldP <= 0 {
+	if r == nil {
+		return
+	}
+	// a breakpoint may be placed on a yield site (client "*", op "yield:<site>", phase "site"):
+	// the goroutine is parked right there, inside the library, until the driver releases it
+	r.yieldClient.atPhase("yield:"+site, "site")
+	if r.Spec.YieldP <= 0 {
 		return
 	}
 	r.St.mu.Lock()
